@@ -183,7 +183,7 @@ theorem run_safe {p : String} : ∀ (ops : List MOp) (regd : List String) (s : M
   | cons op ops ih =>
     intro regd s hr hreg hsafe
     obtain ⟨lo, hlo, hall⟩ := hreg
-    have fin : ∀ (x : Ret) (s1 : MState) (regd' : List String), step op s = some (x, s1) → RInv p s1 →
+    have fin : ∀ (x : MRet) (s1 : MState) (regd' : List String), step op s = some (x, s1) → RInv p s1 →
         HasRegd regd' s1 → safeB regd' ops = true → ∃ rs s', runOps (op :: ops) s = some (rs, s') ∧ RInv p s' := by
       intro x s1 regd' h1 hr1 hreg1 hs1
       obtain ⟨rs, s', h2, hr'⟩ := ih regd' s1 hr1 hreg1 hs1
